@@ -134,6 +134,39 @@ def name_tokens(row):
     return probs
 
 
+def table_rules(rp, F, repo, rule="TABLE=TXT"):
+    """registry (HIR of static CIPHERS) == scripts/tls-ciphersuites.txt; returns (rows, order)"""
+    txt = os.path.join(repo, "scripts", "tls-ciphersuites.txt")
+    rows, order = parse_txt(txt)
+    rp.check(len(order) == len(rows), rule, "txt/unique-ids", "scripts/tls-ciphersuites.txt", "duplicate ids in the txt", found=len(order) - len(rows))
+    names = [r["name"] for r in order]
+    rp.check(len(set(names)) == len(names), rule, "txt/unique-names", "scripts/tls-ciphersuites.txt", "duplicate names in the txt", found=[n for n in set(names) if names.count(n) > 1][:3])
+    for r in order:
+        bad = [k for k in ("kx", "au", "enc", "enc_mode", "mac", "prf") if r[k].startswith("?")]
+        if bad:
+            rp.fail(rule, "txt/token/%04x" % r["id"], "scripts/tls-ciphersuites.txt:%d" % r["line"], "unknown algorithm token(s) %s" % [r[k] for k in bad])
+    st = F.fn("tls_ciphers::CIPHERS")
+    ents = hir_entries(st) if st else None
+    if rp.check(ents is not None, rule, "CIPHERS/readable", "src/tls_ciphers.rs", "static CIPHERS is not a phf map literal the analysis can read"):
+        rp.check(len(ents) == len(rows), rule, "cardinality", site(st), "registry has %d entries, txt has %d rows" % (len(ents), len(rows)), expected=len(rows), found=len(ents))
+        seen = set()
+        for key, e in ents:
+            k = "%04x" % key
+            if key in seen:
+                rp.fail(rule, "dup-key/" + k, site(st), "duplicate key in the map")
+            seen.add(key)
+            r = rows.get(key)
+            if r is None:
+                rp.fail(rule, "extra/" + k, site(st), "registry entry %s (%s) is not in the txt" % (k, e.get("name")))
+                continue
+            exp = {x: r[x] for x in ("name", "id", "kx", "au", "enc", "enc_mode", "enc_size", "mac", "mac_size", "prf")}
+            rp.check(e == exp, rule, "row/" + k, site(st), "registry entry %s differs from its txt row" % k, expected=exp, found=e, why_ok=r["name"])
+        for rid in rows:
+            if rid not in seen:
+                rp.fail(rule, "missing/%04x" % rid, site(st), "txt row %04x (%s) is not in the registry" % (rid, rows[rid]["name"]))
+    return rows, order
+
+
 def run(tier, repo):
     rp = Report("C12", tier)
     facts, info = extract(repo, "default", want_mir=False)
@@ -144,34 +177,7 @@ def run(tier, repo):
     rp.rule("LOOKUPS", "from_id / TryFrom<u16> / TryFrom<TlsCipherSuiteID> / get_ciphersuite pass the queried id unchanged to CIPHERS.get; name lookup compares whole strings with ==")
     rp.rule("DERIVED", "enc_key_size = enc_size/8; mac_length and enc_block_size tables equal the reference and mac_length = mac_size/8 on every HMAC row")
     rp.rule("NAME-TOKENS", "cipher, key size, mode, MAC/PRF and kx/au tokens of each IANA name agree with the columns")
-    txt = os.path.join(repo, "scripts", "tls-ciphersuites.txt")
-    rows, order = parse_txt(txt)
-    rp.check(len(order) == len(rows), "TABLE=TXT", "txt/unique-ids", "scripts/tls-ciphersuites.txt", "duplicate ids in the txt", found=len(order) - len(rows))
-    names = [r["name"] for r in order]
-    rp.check(len(set(names)) == len(names), "TABLE=TXT", "txt/unique-names", "scripts/tls-ciphersuites.txt", "duplicate names in the txt", found=[n for n in set(names) if names.count(n) > 1][:3])
-    for r in order:
-        bad = [k for k in ("kx", "au", "enc", "enc_mode", "mac", "prf") if r[k].startswith("?")]
-        if bad:
-            rp.fail("TABLE=TXT", "txt/token/%04x" % r["id"], "scripts/tls-ciphersuites.txt:%d" % r["line"], "unknown algorithm token(s) %s" % [r[k] for k in bad])
-    st = F.fn("tls_ciphers::CIPHERS")
-    ents = hir_entries(st) if st else None
-    if rp.check(ents is not None, "TABLE=TXT", "CIPHERS/readable", "src/tls_ciphers.rs", "static CIPHERS is not a phf map literal the analysis can read"):
-        rp.check(len(ents) == len(rows), "TABLE=TXT", "cardinality", site(st), "registry has %d entries, txt has %d rows" % (len(ents), len(rows)), expected=len(rows), found=len(ents))
-        seen = set()
-        for key, e in ents:
-            k = "%04x" % key
-            if key in seen:
-                rp.fail("TABLE=TXT", "dup-key/" + k, site(st), "duplicate key in the map")
-            seen.add(key)
-            r = rows.get(key)
-            if r is None:
-                rp.fail("TABLE=TXT", "extra/" + k, site(st), "registry entry %s (%s) is not in the txt" % (k, e.get("name")))
-                continue
-            exp = {x: r[x] for x in ("name", "id", "kx", "au", "enc", "enc_mode", "enc_size", "mac", "mac_size", "prf")}
-            rp.check(e == exp, "TABLE=TXT", "row/" + k, site(st), "registry entry %s differs from its txt row" % k, expected=exp, found=e, why_ok=r["name"])
-        for rid in rows:
-            if rid not in seen:
-                rp.fail("TABLE=TXT", "missing/%04x" % rid, site(st), "txt row %04x (%s) is not in the registry" % (rid, rows[rid]["name"]))
+    rows, order = table_rules(rp, F, repo)
     # snapshot
     snap, sorder = parse_txt(os.path.join(VERIF, "spec", "ciphers_snapshot.txt"))
     nsnap = 0
